@@ -59,6 +59,24 @@ func (C08) Generate(t *tape.Tape, tier string) interface{} {
 			methods = append(methods, f.Pkg+"."+f.Name+"."+m.Name)
 		}
 	}
+	if t.Bool(1, 8) {
+		// a hub class with many collaborators: fan-out beyond any small threshold (counts matter, not only shapes)
+		n := t.Int(31, 36)
+		var hub []string
+		hub = append(hub, "package hub;", "", "public class Hub {", "    public void fanOut() {")
+		for k := 1; k <= n; k++ {
+			hub = append(hub, fmt.Sprintf("        C%02d.run();", k))
+			body := "    }"
+			call := ""
+			if k < n && t.Bool(1, 2) {
+				call = fmt.Sprintf("        C%02d.run();\n", k+1)
+			}
+			text := fmt.Sprintf("package hub;\n\npublic class C%02d {\n    public static void run() {\n%s%s\n}\n", k, call, body)
+			sc.Files = append(sc.Files, SrcFile{ID: fmt.Sprintf("h%d", k), Path: fmt.Sprintf("hub/C%02d.java", k), Text: text})
+		}
+		hub = append(hub, "    }", "}")
+		sc.Files = append(sc.Files, SrcFile{ID: "hub", Path: "hub/Hub.java", Text: strings.Join(hub, "\n") + "\n"})
+	}
 	for _, f := range gen.GenTestClasses(t, pkgs) {
 		sc.Files = append(sc.Files, SrcFile{ID: f.ID, Path: f.Path, Text: f.Text})
 	}
